@@ -116,7 +116,7 @@ CLAIMED = {
             "exhaustive up to a bound and random beyond, incl. a malformed stream; also Keccak-256 and RLP against eth_hash / rlp.",
             "Coq proof + exhaustive/random vm_compute correspondence", "5/C16", ""),
     "C17": ("Machine-checked theorems over the ScratchDB state-machine model for all wrapped stores, all operation lists, all keys, "
-            "both do_deletes values and abort at any position (C17_no_write_during, C17_read, C17_contains, C17_commit, C17_abort); also for a "
+            "both do_deletes values and abort at any position (C17_no_write_during, C17_read, C17_contains, C17_copy, C17_commit, C17_abort); also for a "
             "ScratchDB whose wrapped database is itself a ScratchDB (C17_nested_read, C17_nested_commit); "
             "model tied to trie/utils/db.py by differential runs with an independent last-action oracle.",
             "Coq proof by induction over the operation list + vm_compute correspondence against /repo",
